@@ -13,4 +13,6 @@ for f in spec/*.tla; do
 done
 rm -f /tmp/verif-sany.$$
 PYTHONPATH=/repo/src:/verif PYTHONHASHSEED=0 FANDANGO_DISABLE_UPDATE_CHECK=1 /venv/bin/python -c "import harness.fan; print('fandango imported from', harness.fan.Fandango.__module__)"
+# build the C++ spec reader from the working tree once (C14 reuses it while the sources are unchanged)
+PYTHONPATH=/repo/src:/verif /venv/bin/python -m harness.cppbuild || fail=1
 exit $fail
